@@ -386,6 +386,36 @@ func genC18(r *RNG, tier string) []Case {
 			}
 		}
 	}
+	// a VERY large executed set, saved as text on one line and restored (a server that skipped every other transaction for
+	// years): thousands of intervals for one server, the text far beyond 64 KiB
+	{
+		big := set56{}
+		var l []iv
+		for k := int64(0); k < 6000; k++ {
+			l = append(l, iv{10*k + 1, 10*k + 1 + k%7})
+		}
+		big[sidPool[0]] = l
+		big[sidPool[1]] = []iv{{1, 5}}
+		txt := canonSetText(big)
+		cs = append(cs, gtidCase("g56 op=parse_set s="+hx([]byte(txt)), "huge-set-text", true, func(resp map[string]string) Outcome {
+			impl := catch(func() string {
+				x, _, err := replication.VerifParseGTIDSet("MySQL56", txt)
+				if err != nil {
+					return "err"
+				}
+				p := x.(replication.Mysql56GTIDSet)
+				if p.String() != txt || !p.Equal(big.impl()) || !p.ContainsGTID(mkGtid56(sidPool[0], 59991)) {
+					return fmt.Sprintf("ok-but-differs: %d bytes printed back, want %d", len(p.String()), len(txt))
+				}
+				return "ok"
+			})
+			o := Outcome{Impl: impl, Model: "ok", CorrOK: true, OracleOK: impl == "ok"}
+			if !o.OracleOK {
+				o.Note, o.FindingKey = "a set text of "+strconv.Itoa(len(txt))+" bytes on one line does not parse back to the set it denotes: "+impl, "huge-set-text"
+			}
+			return o
+		}))
+	}
 	// multi-SID and wide random ones
 	n := 4000
 	if tier == "thorough" {
@@ -945,7 +975,7 @@ func genC19(r *RNG, tier string) []Case {
 			return im == fmt.Sprintf("ok:%s,%d", hx(sidb), int64(gno)), "GTID event does not decode to the identifier the master wrote"
 		})
 		// MariaDB GTID event
-		seq, dom, fl := r.U64(), uint32(r.U64()), byte(r.Intn(4))
+		seq, dom, fl := r.U64(), uint32(r.U64()), byte(r.Pick(0, 1, 2, 3, 0x08, 0x0c, 0x20, 0x40, 0x4c, 0x80, 0x81, 0x89, 0xff)) // flags2 incl. the XA bits of 10.5+ and bits no server defines
 		mb := append(leBytes(seq, 8), leBytes(uint64(dom), 4)...)
 		mb = append(mb, fl)
 		mb = append(mb, r.Bytes(r.Pick(0, 6))...)
